@@ -85,6 +85,13 @@ func (presentationDefinition PresentationDefinition) Match(vcs []vc.VerifiableCr
 	var descriptorMaps []InputDescriptorMappingObject
 	var err error
 	if len(presentationDefinition.SubmissionRequirements) > 0 {
+		// definitions received from a remote party are not validated against the JSON schema,
+		// so they can contain null entries ("submission_requirements": [null], "from_nested": [null])
+		for _, submissionRequirement := range presentationDefinition.SubmissionRequirements {
+			if err = submissionRequirement.assertNotNull(); err != nil {
+				return nil, nil, err
+			}
+		}
 		if descriptorMaps, selectedVCs, err = presentationDefinition.matchSubmissionRequirements(vcs); err != nil {
 			return nil, nil, err
 		}
@@ -130,6 +137,10 @@ func (presentationDefinition PresentationDefinition) ResolveConstraintsFields(cr
 func (presentationDefinition PresentationDefinition) CredentialsRequired() bool {
 	if len(presentationDefinition.SubmissionRequirements) > 0 {
 		for _, submissionRequirement := range presentationDefinition.SubmissionRequirements {
+			if submissionRequirement == nil {
+				// can be the case for definitions received from a remote party ("submission_requirements": [null])
+				continue
+			}
 			switch submissionRequirement.Rule {
 			case "all":
 				return true
